@@ -29,6 +29,7 @@ contract(CONN + '._receive_ping_frame', props=['C26', 'C17'],
              ('event-payload', 'result[1][0].ping_data == frame.opaque_data', ['C26']),
              ('ack-not-answered', 'implies(ack, len(result[0]) == 0)', ['C26']),
              ('answered-once', 'implies(not ack, len(result[0]) == 1 and class_name(result[0][0]) == "PingFrame" and ("ACK" in result[0][0].flags) and result[0][0].opaque_data == frame.opaque_data and result[0][0].stream_id == 0)', ['C26']),
+             ('closed-connection-processes-nothing', 'cst != C_CLOSED', ['C19']),
              ('nothing-serialised-here', 'len(g_out) == len(old(g_out))')],
     raises=[dict(exc='ProtocolError', when='not conn_accepts(cst, CI_RECV_PING)', iff=True, props=['C17', 'C19'])],
     canary='len(result[0]) == 0')
